@@ -524,6 +524,14 @@ func TestRun(t *testing.T) {
 			if n := strings.Count(obs, ","); n >= 1000 {
 				h.Count("reach:op-with-1000+-records")
 			}
+			if strings.HasPrefix(op, "resume") {
+				// the backlog released by a client that reads again: > 10000 means chSend (9999) was full and a service goroutine was blocked on it
+				for _, sec := range strings.Fields(obs) {
+					if strings.HasPrefix(sec, "A") && strings.Count(sec, ",") >= 10000 {
+						h.Count("reach:chSend-full-sender-blocked")
+					}
+				}
+			}
 			h.Emit(op, obs)
 		}
 		if ops := hx.ReplayOps(); ops != nil {
